@@ -211,11 +211,17 @@ pub fn gen_func(
         }
         (Arch::X64, Shape::Frameless) => {
             saves_fp = p.chance(1, 3);
+            // rbp is pushed like any other callee-saved register, at any position
+            let fp_at = if saves_fp { p.below(n_push as u64 + 1) as usize } else { usize::MAX };
+            let mut order: Vec<Option<usize>> = (0..n_push).map(Some).collect();
             if saves_fp {
-                insns.push(Insn { bytes: vec![0x55], eff: Eff::PushFp });
+                order.insert(fp_at, None);
             }
-            for i in 0..n_push {
-                insns.push(Insn { bytes: X64_SAVED[i].1.to_vec(), eff: Eff::PushOther });
+            for r in &order {
+                match r {
+                    None => insns.push(Insn { bytes: vec![0x55], eff: Eff::PushFp }),
+                    Some(i) => insns.push(Insn { bytes: X64_SAVED[*i].1.to_vec(), eff: Eff::PushOther }),
+                }
             }
             // keep the stack 16-byte aligned at calls like a compiler would, roughly
             let alloc = if alloc == 0 && n_push == 0 && !saves_fp { 8 } else { alloc };
@@ -223,11 +229,11 @@ pub fn gen_func(
                 insns.push(Insn { bytes: x64_sub(alloc), eff: Eff::SubSp(alloc) });
                 epilogue.push(Insn { bytes: x64_add(alloc), eff: Eff::AddSp(alloc) });
             }
-            for i in (0..n_push).rev() {
-                epilogue.push(Insn { bytes: X64_SAVED[i].2.to_vec(), eff: Eff::PopOther });
-            }
-            if saves_fp {
-                epilogue.push(Insn { bytes: vec![0x5d], eff: Eff::PopFp });
+            for r in order.iter().rev() {
+                match r {
+                    None => epilogue.push(Insn { bytes: vec![0x5d], eff: Eff::PopFp }),
+                    Some(i) => epilogue.push(Insn { bytes: X64_SAVED[*i].2.to_vec(), eff: Eff::PopOther }),
+                }
             }
         }
         (Arch::A64, Shape::FramePointer) => {
